@@ -1,7 +1,7 @@
 """C20 — number parsing, alignment and byte-order helpers (spsdk/utils/misc.py, spsdk/sbfile/misc.py)."""
 from vf.api import *  # noqa
 from spsdk.exceptions import SPSDKError, SPSDKValueError
-from spsdk.utils.misc import Endianness, BinaryPattern
+from spsdk.utils.misc import Endianness, BinaryPattern, get_bytes_cnt_of_int
 
 
 concrete_ok("spsdk.utils.misc:BinaryPattern")
@@ -178,7 +178,8 @@ def _(value: Union[bytes, bytearray, int], align_to_2n: bool, byte_cnt: Optional
            label="does-not-fit")
     raises(SPSDKValueError, isint and value >= 65536 and req and align_to_2n and value >= pow2(32 * (byte_cnt // 4)),
            label="does-not-fit-after-align")
-    ensures(implies(not isint, result == value), label="bytes-identity")
+    returns(value.to_bytes(get_bytes_cnt_of_int(value, align_to_2n, byte_cnt), endianness.value) if isint else value,
+            label="digits-of-the-value-at-the-chosen-width")
     ensures(implies(isint and req, len(result) == byte_cnt), label="requested-width")
     ensures(implies(isint, len(result) >= 1 and value < pow2(8 * len(result))), label="fits")
     ensures(implies(isint and not req and (not align_to_2n or value < 65536),
